@@ -2,6 +2,7 @@
 use crate::report::Shard;
 
 pub mod c01_04;
+pub mod c02t;
 pub mod c05;
 pub mod c06;
 pub mod c07;
@@ -32,7 +33,7 @@ pub struct Args {
 
 impl Args {
     pub fn is_miri(&self) -> bool {
-        self.build == "miri"
+        self.build.starts_with("miri")
     }
     pub fn thorough(&self) -> bool {
         self.tier == "thorough"
@@ -47,6 +48,10 @@ pub fn run(args: &Args) -> Shard {
     let mut sh = Shard::new(&args.prop, &args.tier, &args.build, args.seed, args.shard, args.nshards);
     match args.prop.as_str() {
         "C01" | "C02" | "C03" | "C04" => c01_04::run(args, &mut sh),
+        "C02T" => {
+            sh.prop = "C02".into();
+            c02t::run(args, &mut sh)
+        }
         "C05" => c05::run(args, &mut sh),
         "C06" => c06::run(args, &mut sh),
         "C10" => c10::run(args, &mut sh),
